@@ -760,7 +760,12 @@ func init() {
 		"strings.Compare":     i2(strings.Compare),
 		"strings.ReplaceAll": func(e *Engine, a []Value) Value {
 			return e.liftPure(a, func(c []interface{}) []interface{} {
-				return []interface{}{strings.ReplaceAll(c[0].(string), c[1].(string), c[2].(string))}
+				r := strings.ReplaceAll(c[0].(string), c[1].(string), c[2].(string))
+				if len(r) > 2048 {
+					// a string that keeps growing inside a loop: count it against the unwinding bound before it exhausts memory
+					panic(outOfBound{"step budget exceeded (a string grew beyond 2 KiB)"})
+				}
+				return []interface{}{r}
 			})
 		},
 		"strings.Replace": func(e *Engine, a []Value) Value {
